@@ -5,6 +5,7 @@ CONSTANTS
   Calls <- Calls_3
   ChanCap = 2
   MaxTasks = 5
+  Cancellable = {}
   RegisterFirst = TRUE
 INVARIANTS
   TypeOK
